@@ -141,7 +141,7 @@ def audit(case, seq, data: bytes) -> list[tuple[str, str]]:
         if starts > runs:
             fails.append(("graph-restarted",
                           f"{starts} graph starts for {runs} runs of equal graph names"))
-    if case.get("ns"):
+    if case.get("ns") or str(case.get("writer", "")).endswith("+ns"):
         return fails  # (the naive size of declaration rows is not defined by the property)
     naive = naive_rows_size(seq, cls, tuple(case["preset"]))
     if rdflib_api and cls == "graph":
